@@ -681,3 +681,66 @@ class SymFmt(Sym):
 
     def __init__(self, prefix, n, suffix):
         self.prefix, self.n, self.suffix = prefix, n, suffix
+
+
+class SymChoice(Sym):
+    """values[idx] for a symbolic index into a concrete list of plain Python values
+    (enum labels).  Path invariant: 0 <= idx < len(values)."""
+
+    __slots__ = ("idx", "values")
+    _intern = {}
+
+    def __init__(self, idx, values):
+        self.idx = idx
+        self.values = list(values)
+
+    def __repr__(self):
+        return "SymChoice(%s of %d)" % (self.idx, len(self.values))
+
+    @classmethod
+    def ident(cls, v):
+        k = (type(v).__name__, v)
+        if k not in cls._intern:
+            cls._intern[k] = len(cls._intern)
+        return cls._intern[k]
+
+    def id_term(self):
+        ids = [self.ident(v) for v in self.values]
+        t = z3.IntVal(ids[-1])
+        for k in range(len(ids) - 2, -1, -1):
+            t = z3.If(self.idx == k, z3.IntVal(ids[k]), t)
+        return t
+
+    def eq_const(self, c):
+        hits = []
+        for k, v in enumerate(self.values):
+            try:
+                same = type(v) is type(c) and v == c or (isinstance(v, (int, float)) and isinstance(c, (int, float)) and not isinstance(v, bool) and not isinstance(c, bool) and v == c)
+            except Exception:
+                same = False
+            if same:
+                hits.append(self.idx == k)
+        if not hits:
+            return False
+        return mk_bool(z3.Or(*hits) if len(hits) > 1 else hits[0])
+
+    def map(self, f):
+        """apply a total native function to every alternative"""
+        res = [f(v) for v in self.values]
+        return choice_of(self.idx, res)
+
+
+def choice_of(idx, res):
+    first = res[0]
+    if all(type(r) is type(first) and r == first for r in res):
+        return first
+    if all(isinstance(r, bool) for r in res):
+        hits = [idx == k for k, r in enumerate(res) if r]
+        return mk_bool(z3.Or(*hits) if len(hits) > 1 else hits[0])
+    if all(isinstance(r, int) and not isinstance(r, bool) for r in res):
+        t = z3.IntVal(res[-1])
+        for k in range(len(res) - 2, -1, -1):
+            t = z3.If(idx == k, z3.IntVal(res[k]), t)
+        lo = min(res)
+        return mk_int(t, (1 << max(res).bit_length()) - 1 if lo >= 0 else None)
+    return SymChoice(idx, res)
